@@ -1,16 +1,169 @@
-"""X-cli_cp (work in progress)"""
+"""X-cli_cp  `tahoe cp`: which arguments are accepted and what the copy does to the local tree and to the grid tree.
+
+Spec (spec/frontends):
+  CliCp.tla     two trees (path -> directory | file(content, mutable, identity)); arguments [side, path, named, slash, form];
+                Cp(W, a) = [expect = ok | error | unspec, errs, L, G, maydirs] built like the code (TgtKind / SrcKind,
+                UsageErrs, FileToFile, Items, Collide, ThingsToDirectory); the CP_ clauses state the rules of
+                docs/frontends/CLI.rst, `tahoe cp --help` (scripts/cli.py) and the comments of scripts/tahoe_cp.py over
+                (world, arguments, answer) without those operators.
+  GenCliCp.tla  three worlds x lists of 1..3 sources x targets x -r x --caps-only, every row with Cp's answer; the rows are
+                the state space on which TLC checks the CP_ clauses.
+Conformance: harness/clicp_driver.py builds a row's world for real (temporary directory; directories, immutable and
+mutable files on a grid behind the real web API, harness/webgrid.py), runs the real allmydata.scripts.tahoe_cp.Copier
+with do_http routed into that web API, and reads both trees back.  Python compares with the Spec's row.
+"""
+import collections, json, random
+
 INVS = ["CP_NeedsRecursive_", "CP_MissingSource_", "CP_ErrorChangesNothing_", "CP_MissingTargetOneFile_", "CP_MissingTargetElseDirectory_",
         "CP_ManyNeedDirectory_", "CP_FileTargetOneFile_", "CP_UnnamedFileIntoDirectory_", "CP_SlashOnFile_", "CP_SlashOnDirectoryIgnored_",
         "CP_EverythingArrives_", "CP_Frame_", "CP_MutableInPlace_", "CP_LocalFilesArePlain_", "CP_CapsOnlyLocalTarget_",
         "CP_CapsOnlyOnlyLocalTargets_", "CP_Collisions_"]
 
 
+def tree_of(entries):
+    return {e["p"]: (e["k"], e["c"], bool(e["mu"]), e["o"]) for e in entries}
+
+
+def describe(c):
+    def arg(a, tgt=False):
+        s = ("L:" if a["side"] == "local" else "G:") + (a["p"] or ".") + ("/" if a["slash"] else "")
+        if not tgt and not a["named"]:
+            s = "cap(" + s + ")"
+        return s
+    return "cp%s%s %s -> %s" % (" -r" if c["r"] else "", " --caps-only" if c["caps"] else "", " ".join(arg(a) for a in c["srcs"]), arg(c["tgt"], True))
+
+
+def stratum(c):
+    return (c["world"], len(c["srcs"]), c["expect"], ",".join(sorted(c["errs"])), c["why"], c["tgt"]["side"],
+            "".join(sorted({a["side"][0] for a in c["srcs"]})), c["r"], c["caps"])
+
+
+def diff_class(exp, got):
+    """structural name of the first difference between two trees (path -> (k, c, mu, o)), paths in order"""
+    for p in sorted(set(exp) | set(got)):
+        e, g = exp.get(p), got.get(p)
+        if e == g:
+            continue
+        if g is None:
+            return "missing_%s" % e[0], p
+        if e is None:
+            return "unexpected_%s" % g[0], p
+        if e[0] != g[0]:
+            return "%s_instead_of_%s" % (g[0], e[0]), p
+        if e[1] != g[1]:
+            return ("content_is_cap" if g[1].startswith("cap:") else "content_is_data" if e[1].startswith("cap:") else "content"), p
+        if e[2] != g[2]:
+            return ("became_immutable" if e[2] else "became_mutable"), p
+        return "other_mutable_object", p
+    return None, None
+
+
 def run(ctx):
-    consts = {"Seed": ctx.seed, "Mod2": 41, "Mod3": 211, "WorldNames": '{"big", "fresh", "flat"}'}
+    q = ctx.quick
+    rng = random.Random("X-cli_cp-%d" % ctx.seed)
+    consts = {"Seed": ctx.seed, "Mod1": 3 if q else 1, "Mod2": 8 if q else 1, "Mod3": 8 if q else 1, "WorldNames": '{"big", "fresh", "flat"}'}
+    ctx.constants["GEN_CliCp"] = consts
     cfg = "SPECIFICATION Spec\nCONSTANTS\n" + "".join("  %s = %s\n" % kv for kv in consts.items()) + "".join("INVARIANT %s\n" % i for i in INVS)
-    rows, r = ctx.gen("frontends/GenCliCp", cfg, timeout=3000, coverage=False)
-    print(len(rows), r.states)
-    import collections
-    print(collections.Counter((x["world"], len(x.get("srcs", [])), x["expect"]) for x in rows))
-    import json
-    json.dump(rows[:3] + rows[-3:], open("/tmp/x2-clicp/rows_sample.json", "w"), indent=1)
+    rows, r = ctx.gen("frontends/GenCliCp", cfg, timeout=3000, coverage=False, env={"_JAVA_OPTIONS": "-XX:TieredStopAtLevel=1"})
+    worlds = {x["world"]: {"L0": x["L0"], "G0": x["G0"]} for x in rows if x["expect"] == "WORLD"}
+    cases = [x for x in rows if x["expect"] != "WORLD"]
+    cases.sort(key=lambda c: json.dumps([c["world"], c["srcs"], c["tgt"], c["r"], c["caps"]], sort_keys=True))
+    if r.states != len(cases):
+        raise RuntimeError("TLC found %d states, the table has %d rows" % (r.states, len(cases)))
+
+    # which rows are replayed: all of them (thorough) or a seeded sample that takes rows from every stratum
+    strata = collections.defaultdict(list)
+    for i, c in enumerate(cases):
+        strata[stratum(c)].append(i)
+    if q:
+        sel = []
+        for key in sorted(strata, key=str):
+            idx = strata[key]
+            k = 3 if key[2] == "ok" else 1
+            sel += rng.sample(idx, min(len(idx), k))
+        rest = sorted(set(i for i, c in enumerate(cases) if c["expect"] == "ok") - set(sel))
+        sel += rng.sample(rest, min(len(rest), max(0, 520 - len(sel))))
+    else:
+        sel = list(range(len(cases)))
+    rng.shuffle(sel)
+    inp = {"worlds": worlds, "cases": [{"id": i, "world": cases[i]["world"], "srcs": cases[i]["srcs"], "tgt": cases[i]["tgt"],
+                                        "r": cases[i]["r"], "caps": cases[i]["caps"]} for i in sel]}
+    out = ctx.impl("harness/clicp_driver.py", ["--jobs", 4 if q else 6], inp, timeout=6000)
+    res = out["results"]
+
+    tally = collections.Counter()
+    unspec = collections.Counter()
+    http = 0
+    for i in sel:
+        c, o = cases[i], res[str(i)]
+        http += o["http"]
+        ts = c["tgt"]["side"]
+        sides = "".join(sorted({a["side"][0] for a in c["srcs"]})) + ">" + ts[0]
+        w0 = {"local": tree_of(worlds[c["world"]]["L0"]), "grid": tree_of(worlds[c["world"]]["G0"])}
+        got = {"local": tree_of(o["L"]), "grid": tree_of(o["G"]) if o["G"] is not None else None}
+        what = "%s [world %s; %s] -> %s rc=%s %s" % (describe(c), c["world"], " ".join(o["argv"]), o["status"], o["rc"],
+                                                   (o["exc"] or o["stderr"]).strip().replace("\n", " | ")[:160])
+        replay = {"kind": "cli-cp-row", "row": c, "observed": o,
+                  "how": "harness/clicp_driver.py builds the world of the row (GenCliCp.tla Worlds) and runs the real Copier"}
+        tally["%s:%s" % (c["expect"], o["status"])] += 1
+        nontrivial = c["expect"] == "ok" and (len(c["srcs"]) > 1 or any(e["k"] == "dir" for e in c["T1"] if e["p"] not in w0[ts]) or
+                                              any(e["mu"] for e in c["T1"] if w0[ts].get(e["p"]) != (e["k"], e["c"], bool(e["mu"]), e["o"])))
+        ctx.count(describe(c) if nontrivial else None)
+        if len(ctx.samples) < 4 and nontrivial and i % 7 == 0:
+            ctx.sample({"row": describe(c), "world": c["world"], "argv": o["argv"], "spec": {"expect": c["expect"], "errs": c["errs"]},
+                        "real": {"status": o["status"], "http_requests": o["http"]},
+                        "target_side_after": sorted(p for p in got[ts] if p not in w0[ts])})
+
+        def bad(key, problem):
+            ctx.report(key="case:" + key, what="%s: %s; Spec: expect=%s %s" % (problem, what, c["expect"], sorted(c["errs"])), replay=replay)
+
+        flags = ("-r" if c["r"] else "") + ("caps" if c["caps"] else "")
+        other = "grid" if ts == "local" else "local"
+        if c["expect"] == "unspec":
+            unspec["%s: %s" % (c["why"], o["status"])] += 1
+            continue
+        if got[other] is not None and got[other] != w0[other]:
+            kind, p = diff_class(w0[other], got[other])
+            bad("other_side_changed:%s:%s" % (sides, kind), "the %s tree changed at %s" % (other, p))
+        if c["expect"] == "ok":
+            if o["status"] != "ok":
+                bad("ok_expected:%s:got_%s:%s" % (sides, o["status"], flags), "the command must succeed")
+                continue
+            kind, p = diff_class(tree_of(c["T1"]), got[ts])
+            if kind:
+                e, g = tree_of(c["T1"]).get(p), got[ts].get(p)
+                bad("tree:%s:%s:%s" % (sides, kind, flags), "the %s tree afterwards differs at %r: Spec %s, real %s" % (ts, p, e, g))
+        else:
+            if o["status"] == "ok":
+                bad("error_expected:%s:%s:got_ok" % (sides, "+".join(sorted(c["errs"]))), "the command must fail")
+            elif o["status"] not in c["errs"]:
+                bad("error_class:%s:got_%s" % ("+".join(sorted(c["errs"])), o["status"]), "the command failed for another reason")
+            tolerated = set(c["maydirs"]) if o["status"] == "E_COLLIDE" else set()
+            seen = {p: v for p, v in got[ts].items() if not (p in tolerated and v[0] == "dir" and p not in w0[ts])}
+            kind, p = diff_class(w0[ts], seen)
+            if kind:
+                bad("error_changed_tree:%s:%s:%s" % (sides, "+".join(sorted(c["errs"])), kind),
+                    "a refused command changed the %s tree at %r" % (ts, p))
+
+    byexp = collections.Counter(c["expect"] for c in cases)
+    if not any(k.startswith("ok:ok") for k in tally) or not any(k.startswith("error:E_") for k in tally):
+        raise RuntimeError("vacuous run: %s" % dict(tally))
+    ctx.exhaustive = not q
+    ctx.rule = ("GEN: GenCliCp.tla's three worlds (big: both sides f, d/{x,m,s/u1,e/}, g/{x,d/{x,z}}, t/{x,m,d/x,f/,g}, three mutable "
+                "files on the grid; fresh: empty grid directory; flat: files only) x every (source, target, flags) for one source, and "
+                "for every (first source, target, flags) one list of two and one of three sources chosen by index arithmetic rotated by "
+                "the seed; source = local or grid x named path / bare capability / bare alias x trailing slash x existing file / "
+                "directory / missing, target = root, existing file / mutable file / directory, missing name x trailing slash x both "
+                "sides, flags = -r x --caps-only (quick: one row in 3 / 8 / 8).  Replayed: every row (thorough); quick: a seeded sample "
+                "with rows of every stratum (world, number of sources, expectation, error classes, sides, flags), 3 per stratum of "
+                "rows that must succeed, 1 otherwise, filled up to 520 with rows that must succeed.  non-trivial = a row that must "
+                "succeed and has several sources, or makes a directory, or writes a mutable file in place.")
+    ctx.assumptions += ["TLC and the CommunityModules",
+                        "the driver's fixed tables (names, content identifier -> bytes, spelling of an argument per form, stderr text -> "
+                        "error class); mutable files identified by storage index, immutable files by reading them back",
+                        "allmydata.scripts.tahoe_cp.do_http (blocking http.client) rebound to a synchronous call into the real web API "
+                        "on the virtual reactor; one gateway, all storage servers up (k=1, n=2 on 2 servers)",
+                        "the parent of the target exists; no symlinks / special files; write-caps everywhere (no read-only directories)"]
+    ctx.notes.append("rows: %d (%s); replayed %d with %d HTTP requests made by the Copier; outcomes (expectation:status) %s" % (
+        len(cases), dict(byexp), len(sel), http, dict(sorted(tally.items()))))
+    ctx.notes.append("rows the documents say nothing about (executed, not judged) -- reason: status: %s" % dict(sorted(unspec.items())))
